@@ -21,6 +21,8 @@ func init() {
 		ruleR3(c, "C10.W5")
 		ruleF2(c, "C10.W5b")
 		ruleSlot(c, "C10.W6")
+		ruleR2(c, "C10.W7")
+		ruleF3(c, "C10.W8")
 	}
 }
 
